@@ -1,15 +1,16 @@
-import NjectProofs.IncludeSym
+import NjectProofs.IncludeProv
 /-
   C15 / C03, about the algorithm: the chain the include computation accepts is a FIXPOINT of the
   validity check.  In particular every value returned by an included provider has an included
   receiver above it (unless ConsumptionOptional / Unused), and every input of an included provider
   has an included source -- against the final include flags.
 
-  That `providesReturns` records every dependency in both directions is proved for all chains
-  (`NjectProofs/IncludeSym.lean`), so the fixpoint theorem is unconditional.  The hypothesis of the
-  C15 corollary about where recorded consumers come from (`provOKB`) is decidable; it is evaluated by
-  the driver on the model's own state for every generated chain (record `m5deps`), not yet proved for
-  all chains.
+  That `providesReturns` records every dependency in both directions (`NjectProofs/IncludeSym.lean`),
+  and that the consumers it records for a returned type are listed before the returner and do receive
+  that type (`NjectProofs/IncludeProv.lean`, with `IncludeStatic.lean` for positions and the
+  must-consume switch), is proved for all chains: both theorems below are unconditional.  The driver
+  still evaluates the two decidable predicates on the model's state for every generated chain (record
+  `m5deps`) as a cross-check of the definitions.
 -/
 namespace Nject
 
@@ -43,7 +44,7 @@ theorem C03_included_providers_have_included_sources (ch : Chain)
 /-- **C15 (algorithm)**: in the chain the include computation accepts, every returned value of an
     included provider that is not ConsumptionOptional (or Unused) is received by an included provider
     listed before it. -/
-theorem C15_bound_chain_consumes_returns (ti : TyInfo) (funcs : List CP) (cannot0 : List Nat) (pre ch : Chain)
+theorem C15_returns_consumed_of_prov (ti : TyInfo) (funcs : List CP) (cannot0 : List Nat) (pre ch : Chain)
     (hpre : inclusionBeforeFinal ti funcs cannot0 = .ok pre) (hprov : provOKB pre = true)
     (h : computeInclusion ti funcs cannot0 = .ok ch) : returnsConsumedB ch = true := by
   have hfix := C03_bound_chain_is_a_fixpoint ti funcs cannot0 ch h
@@ -122,5 +123,17 @@ theorem C15_bound_chain_consumes_returns (ti : TyInfo) (funcs : List CP) (cannot
           refine ⟨⟨hqinc, ?_⟩, ?_⟩
           · rw [hqpos, hs.1, hpos]; exact hqi
           · rw [hsq.2.2.2.1]; exact hrecv
+
+/-- **C15 (algorithm), unconditional**: for every provider list, the chain the include computation
+    accepts has, for every returned value of an included provider that is not ConsumptionOptional
+    (or Unused), an included receiver listed before it. -/
+theorem C15_bound_chain_consumes_returns (ti : TyInfo) (funcs : List CP) (cannot0 : List Nat) (ch : Chain)
+    (h : computeInclusion ti funcs cannot0 = .ok ch) : returnsConsumedB ch = true := by
+  have h' := h
+  unfold computeInclusion at h'
+  split at h'
+  · cases h'
+  · rename_i pre hpre
+    exact C15_returns_consumed_of_prov ti funcs cannot0 pre ch hpre (inclusionBeforeFinal_provOK ti funcs cannot0 pre hpre) h
 
 end Nject
